@@ -13,7 +13,8 @@
 (***************************************************************************)
 EXTENDS Rewrite, Json
 
-CONSTANTS MaxNodes, Ops, MaxOuts, EmitOn
+CONSTANTS MaxNodes, Ops, MaxOuts, EmitOn,
+          SampleMod, SampleRes   \* emit only programs whose structural checksum is SampleRes modulo SampleMod (1, 0 = all)
 
 VARIABLES p, phase
 vars == <<p, phase>>
@@ -86,7 +87,16 @@ Finish ==
 Next == Build \/ Finish
 Spec == Init /\ [][Next]_vars
 
-EmitProg == (EmitOn /\ phase = "done") => PrintT(ToJson(p))
+\* a deterministic structural checksum (TLC's output order and RandomElement depend on worker scheduling)
+OpCode(op) == CASE op = "Neg" -> 1 [] op = "Identity" -> 2 [] op = "Add" -> 3 [] op = "Sub" -> 4 [] op = "Constant" -> 5
+                [] op = "Split" -> 6 [] op = "Clip" -> 7 [] op = "If" -> 8 [] op = "F1" -> 9 [] op = "F2" -> 10 [] op = "F3" -> 11 [] OTHER -> 12
+RefCode(r) == (IF r[1] = "in" THEN 1 ELSE IF r[1] = "init" THEN 2 ELSE IF r[1] = "out" THEN 3 ELSE 0) + 5 * r[2] + 11 * r[3] + 17 * r[4]
+NodeCode(n) == OpCode(n.op) + 13 * Len(n.attr) + FoldLeft(LAMBDA a, r : (a * 7 + RefCode(r)) % 100003, 0, n.ins)
+GraphCode(g) == FoldLeft(LAMBDA a, r : (a * 3 + RefCode(r)) % 100003,
+                         FoldLeft(LAMBDA a, n : (a * 31 + NodeCode(n)) % 100003, 0, g.nodes), g.outs)
+Chk(q) == FoldLeft(LAMBDA a, g : (a * 37 + GraphCode(g)) % 100003, 0, q.g)
+
+EmitProg == (EmitOn /\ phase = "done" /\ Chk(p) % SampleMod = SampleRes) => PrintT(ToJson(p))
 
 InvWellFormed == WellFormed(p)
 RECURSIVE HasDeep(_)
